@@ -14,26 +14,74 @@ def GoodHead : List Step → Prop
   | .slice [] :: _ => False
   | _ => True
 
-/-- what the write path reads, unchanged (the state may only stop running) -/
+/-- what the write path and the keep-alive clock read, unchanged: the state stays, or the engine halts, or the handshake
+    completes; while connected on both sides the negotiated settings are the same and a scheduled ping stays scheduled -/
 structure FW (a b : Engine) : Prop where
   pendingWrite : b.pendingWrite = a.pendingWrite
   pendingWC : b.pendingWC = a.pendingWC
   current : b.current = a.current
   encSteps : b.encSteps = a.encSteps
   outBytes : b.outBytes = a.outBytes
-  runs : runs b.state → runs a.state
+  st : b.state = a.state ∨ b.state = .halted ∨ (a.state = .pendingConnack ∧ b.state = .connected ∧
+    ∀ s, b.settings = some s → s.serverKeepAlive > 0 → b.nextPing.isSome = true)
+  ka : b.state = .connected → a.state = .connected → b.settings = a.settings ∧ (a.nextPing.isSome = true → b.nextPing.isSome = true)
 
-theorem FW.refl (a : Engine) : FW a a := ⟨rfl, rfl, rfl, rfl, rfl, fun h => h⟩
+theorem FW.runs {a b : Engine} (h : FW a b) : runs b.state → runs a.state := by
+  intro hr
+  rcases h.st with x | x | x
+  · rw [x] at hr; exact hr
+  · rw [x] at hr; rcases hr with y | y <;> cases y
+  · exact .inr x.1
 
-theorem FW.trans {a b c : Engine} (h1 : FW a b) (h2 : FW b c) : FW a c :=
-  ⟨h2.pendingWrite.trans h1.pendingWrite, h2.pendingWC.trans h1.pendingWC, h2.current.trans h1.current,
-   h2.encSteps.trans h1.encSteps, h2.outBytes.trans h1.outBytes, fun h => h1.runs (h2.runs h)⟩
+/-- everything the relation speaks about is literally the same -/
+theorem FW.of_eq {a b : Engine} (h1 : b.pendingWrite = a.pendingWrite) (h2 : b.pendingWC = a.pendingWC) (h3 : b.current = a.current)
+    (h4 : b.encSteps = a.encSteps) (h5 : b.outBytes = a.outBytes) (h6 : b.state = a.state) (h7 : b.settings = a.settings)
+    (h8 : b.nextPing = a.nextPing) : FW a b :=
+  ⟨h1, h2, h3, h4, h5, .inl h6, fun _ _ => ⟨h7, fun h => by rw [h8]; exact h⟩⟩
+
+/-- ... except that a ping has (again) been scheduled -/
+theorem FW.of_eq_ping {a b : Engine} (h1 : b.pendingWrite = a.pendingWrite) (h2 : b.pendingWC = a.pendingWC) (h3 : b.current = a.current)
+    (h4 : b.encSteps = a.encSteps) (h5 : b.outBytes = a.outBytes) (h6 : b.state = a.state) (h7 : b.settings = a.settings)
+    (h8 : b.nextPing.isSome = true) : FW a b :=
+  ⟨h1, h2, h3, h4, h5, .inl h6, fun _ _ => ⟨h7, fun _ => h8⟩⟩
+
+theorem FW.refl (a : Engine) : FW a a := FW.of_eq rfl rfl rfl rfl rfl rfl rfl rfl
+
+theorem FW.trans {a b c : Engine} (h1 : FW a b) (h2 : FW b c) : FW a c := by
+  refine ⟨h2.pendingWrite.trans h1.pendingWrite, h2.pendingWC.trans h1.pendingWC, h2.current.trans h1.current,
+   h2.encSteps.trans h1.encSteps, h2.outBytes.trans h1.outBytes, ?_, ?_⟩
+  · rcases h2.st with x | x | x
+    · rcases h1.st with y | y | y
+      · exact .inl (x.trans y)
+      · exact .inr (.inl (x.trans y))
+      · have hc : c.state = .connected := x.trans y.2.1
+        refine .inr (.inr ⟨y.1, hc, fun s hs hk => ?_⟩)
+        obtain ⟨s2, n2⟩ := h2.ka hc y.2.1
+        exact n2 (y.2.2 s (by rw [← s2]; exact hs) hk)
+    · exact .inr (.inl x)
+    · rcases h1.st with y | y | y
+      · exact .inr (.inr ⟨by rw [← y]; exact x.1, x.2.1, x.2.2⟩)
+      · rw [y] at x; cases x.1
+      · rw [y.2.1] at x; cases x.1
+  · intro hc ha
+    have hb : b.state = .connected := by
+      rcases h1.st with y | y | y
+      · rw [y]; exact ha
+      · exfalso
+        rcases h2.st with x | x | x
+        · rw [x, y] at hc; cases hc
+        · rw [x] at hc; cases hc
+        · rw [y] at x; cases x.1
+      · rw [ha] at y; cases y.1
+    obtain ⟨s1, n1⟩ := h1.ka hb ha
+    obtain ⟨s2, n2⟩ := h2.ka hc hb
+    exact ⟨s2.trans s1, fun h => n2 (n1 h)⟩
 
 theorem FW.halt {a b : Engine} (h : FW a b) : FW a { b with state := .halted } :=
-  ⟨h.pendingWrite, h.pendingWC, h.current, h.encSteps, h.outBytes, fun hh => by rcases hh with x | x <;> cases x⟩
+  ⟨h.pendingWrite, h.pendingWC, h.current, h.encSteps, h.outBytes, .inr (.inl rfl), fun hh => by cases hh⟩
 
 theorem releaseIds_fw (e : Engine) (o : Op) : FW e (e.releaseIds o) := by
-  unfold Engine.releaseIds; split <;> exact ⟨rfl, rfl, rfl, rfl, rfl, fun h => h⟩
+  unfold Engine.releaseIds; split <;> exact (FW.of_eq rfl rfl rfl rfl rfl rfl rfl rfl)
 
 theorem applyAckable_fw (e : Engine) (o : Op) (e3 : Engine) (h : e.applyAckable o = some e3) : FW e e3 := by
   unfold Engine.applyAckable at h
@@ -44,7 +92,7 @@ theorem applyAckable_fw (e : Engine) (o : Op) (e3 : Engine) (h : e.applyAckable 
     · split at h
       · cases h; exact FW.refl _
       · split at h
-        · cases h; exact ⟨rfl, rfl, rfl, rfl, rfl, fun h => h⟩
+        · cases h; exact (FW.of_eq rfl rfl rfl rfl rfl rfl rfl rfl)
         · cases h
 
 theorem applyPingExtension_fw (e : Engine) (o : Op) : FW e (e.applyPingExtension o) := by
@@ -52,7 +100,9 @@ theorem applyPingExtension_fw (e : Engine) (o : Op) : FW e (e.applyPingExtension
   simp only []
   split
   · split
-    · split <;> exact ⟨rfl, rfl, rfl, rfl, rfl, fun h => h⟩
+    · split
+      · exact FW.of_eq_ping rfl rfl rfl rfl rfl rfl rfl rfl
+      · exact FW.refl _
     · exact FW.refl _
   · exact FW.refl _
 
@@ -71,7 +121,7 @@ theorem completeSuccess_fw (e : Engine) (id : Nat) (c : Option Completion) : FW 
   | none => exact FW.refl _
   | some o =>
     simp only []
-    have h1 : FW e ({ e with ops := mapErase e.ops id } : Engine) := ⟨rfl, rfl, rfl, rfl, rfl, fun h => h⟩
+    have h1 : FW e ({ e with ops := mapErase e.ops id } : Engine) := (FW.of_eq rfl rfl rfl rfl rfl rfl rfl rfl)
     have h2 := h1.trans (releaseIds_fw _ o)
     cases ha : (({ e with ops := mapErase e.ops id } : Engine).releaseIds o).applyAckable o with
     | none => exact h2
@@ -91,7 +141,7 @@ theorem completeSuccess_fw (e : Engine) (id : Nat) (c : Option Completion) : FW 
           obtain ⟨idx, t⟩ := u
           simp only []
           cases resultFor o.packet c with
-          | some res => exact h5.trans ⟨rfl, rfl, rfl, rfl, rfl, fun h => h⟩
+          | some res => exact h5.trans (FW.of_eq rfl rfl rfl rfl rfl rfl rfl rfl)
           | none => simp only []; split <;> exact h5
 
 theorem completeFailure_fw (e : Engine) (id : Nat) (k : String) : FW e (e.completeFailure id k).1 := by
@@ -100,7 +150,7 @@ theorem completeFailure_fw (e : Engine) (id : Nat) (k : String) : FW e (e.comple
   | none => exact FW.refl _
   | some o =>
     simp only []
-    have h1 : FW e ({ e with ops := mapErase e.ops id } : Engine) := ⟨rfl, rfl, rfl, rfl, rfl, fun h => h⟩
+    have h1 : FW e ({ e with ops := mapErase e.ops id } : Engine) := (FW.of_eq rfl rfl rfl rfl rfl rfl rfl rfl)
     have h2 := h1.trans (releaseIds_fw _ o)
     cases ha : (({ e with ops := mapErase e.ops id } : Engine).releaseIds o).applyAckable o with
     | none => exact h2
@@ -117,7 +167,7 @@ theorem completeFailure_fw (e : Engine) (id : Nat) (k : String) : FW e (e.comple
         | none => exact h5
         | some u =>
           obtain ⟨idx, t⟩ := u
-          exact h5.trans ⟨rfl, rfl, rfl, rfl, rfl, fun h => h⟩
+          exact h5.trans (FW.of_eq rfl rfl rfl rfl rfl rfl rfl rfl)
 
 theorem failAll_fw (k : String) (ids : List Nat) (e : Engine) : FW e (e.failAll ids k).1 :=
   failAll_keeps (FW e) (fun en id k h => h.trans (completeFailure_fw en id k)) k ids e (FW.refl e)
@@ -136,15 +186,15 @@ theorem succeedAll_fw (ids : List Nat) (e : Engine) : FW e (e.succeedAll ids).1 
   exact this ids (e, .ok) (FW.refl e)
 
 theorem createOp_fw (e : Engine) (p : Packet) (u : Option (Nat × Option Nat)) : FW e (e.createOp p u).1 :=
-  ⟨rfl, rfl, rfl, rfl, rfl, fun h => h⟩
+  (FW.of_eq rfl rfl rfl rfl rfl rfl rfl rfl)
 
 theorem enqueue_fw (e : Engine) (id : Nat) (q : QueueKind) (front : Bool) (e2 : Engine) (h : e.enqueue id q front = some e2) : FW e e2 := by
   unfold Engine.enqueue at h
   split at h
   · cases h
-  · cases q <;> (simp only [Option.some.injEq] at h; rw [← h]; exact ⟨rfl, rfl, rfl, rfl, rfl, fun h => h⟩)
+  · cases q <;> (simp only [Option.some.injEq] at h; rw [← h]; exact (FW.of_eq rfl rfl rfl rfl rfl rfl rfl rfl))
 
-theorem setOp_fw (e : Engine) (o : Op) : FW e (e.setOp o) := ⟨rfl, rfl, rfl, rfl, rfl, fun h => h⟩
+theorem setOp_fw (e : Engine) (o : Op) : FW e (e.setOp o) := (FW.of_eq rfl rfl rfl rfl rfl rfl rfl rfl)
 
 theorem setDupFlag_fw (e : Engine) (id : Nat) (v : Bool) : FW e (e.setDupFlag id v) := by
   unfold Engine.setDupFlag; cases e.op? id <;> first | exact FW.refl _ | exact setOp_fw _ _
@@ -160,7 +210,7 @@ theorem unbind_fw (e : Engine) (id : Nat) : FW e (e.unbind id) := by
     simp only []
     cases o.packetId with
     | none => exact FW.refl _
-    | some pid => exact ⟨rfl, rfl, rfl, rfl, rfl, fun h => h⟩
+    | some pid => exact (FW.of_eq rfl rfl rfl rfl rfl rfl rfl rfl)
 
 theorem submit_fw (e : Engine) (packet : Packet) (user : Option (Nat × Option Nat)) (q : QueueKind) (front : Bool) :
     FW e (e.submit packet user q front).1 := by
@@ -279,7 +329,7 @@ theorem handlePubrel_fw (e : Engine) (a : Ack) : FW e (e.handlePubrel a).1 := by
   unfold Engine.handlePubrel
   split
   · exact FW.refl _
-  · have h1 : FW e ({ e with inQos2 := e.inQos2.filter (· != a.packetId) } : Engine) := ⟨rfl, rfl, rfl, rfl, rfl, fun h => h⟩
+  · have h1 : FW e ({ e with inQos2 := e.inQos2.filter (· != a.packetId) } : Engine) := (FW.of_eq rfl rfl rfl rfl rfl rfl rfl rfl)
     exact h1.trans (createOp_enqueue_fw _ _ _ _ _ _)
 
 theorem handlePublish_fw (e : Engine) (p : Publish) : FW e (e.handlePublish p).1 := by
@@ -287,21 +337,21 @@ theorem handlePublish_fw (e : Engine) (p : Publish) : FW e (e.handlePublish p).1
   split
   · exact FW.refl _
   · split
-    · exact ⟨rfl, rfl, rfl, rfl, rfl, fun h => h⟩
+    · exact (FW.of_eq rfl rfl rfl rfl rfl rfl rfl rfl)
     · split
-      · have h1 : FW e ({ e with outEvents := e.outEvents ++ [Packet.publish p] } : Engine) := ⟨rfl, rfl, rfl, rfl, rfl, fun h => h⟩
+      · have h1 : FW e ({ e with outEvents := e.outEvents ++ [Packet.publish p] } : Engine) := (FW.of_eq rfl rfl rfl rfl rfl rfl rfl rfl)
         exact h1.trans (createOp_enqueue_fw _ _ _ _ _ _)
       · have h1 : FW e (if e.inQos2.contains p.packetId then e else { e with outEvents := e.outEvents ++ [Packet.publish p], inQos2 := insertSorted p.packetId e.inQos2 }) := by
           split
           · exact FW.refl _
-          · exact ⟨rfl, rfl, rfl, rfl, rfl, fun h => h⟩
+          · exact (FW.of_eq rfl rfl rfl rfl rfl rfl rfl rfl)
         exact h1.trans (createOp_enqueue_fw _ _ _ _ _ _)
 
 theorem handlePingresp_fw (e : Engine) : FW e e.handlePingresp.1 := by
   unfold Engine.handlePingresp
   split
   · split
-    · exact ⟨rfl, rfl, rfl, rfl, rfl, fun h => h⟩
+    · exact (FW.of_eq rfl rfl rfl rfl rfl rfl rfl rfl)
     · exact FW.refl _
   · exact FW.refl _
 
@@ -311,7 +361,7 @@ theorem handleDisconnect_fw (e : Engine) (d : Disconnect) : FW e (e.handleDiscon
   · exact FW.refl _
   · split
     · exact FW.refl _
-    · exact ⟨rfl, rfl, rfl, rfl, rfl, fun h => h⟩
+    · exact (FW.of_eq rfl rfl rfl rfl rfl rfl rfl rfl)
 
 theorem foldl_fw (f : Engine → Nat → Engine) (hf : ∀ en id, FW en (f en id)) : ∀ (l : List Nat) (en : Engine), FW en (l.foldl f en) := by
   intro l
@@ -327,16 +377,16 @@ theorem sessionLostStage_fw (e : Engine) : FW e e.sessionLostStage.1 := by
   let x := eb.failAll pr.2 "OfflineQueuePolicyFailed"
   have hres : e.sessionLostStage.1 = { x.1 with inQos2 := [], allocated := [] } := rfl
   rw [hres]
-  have h0 : FW e e0 := ⟨rfl, rfl, rfl, rfl, rfl, fun h => h⟩
+  have h0 : FW e e0 := (FW.of_eq rfl rfl rfl rfl rfl rfl rfl rfl)
   have ha : FW e ea := h0.trans (foldl_fw _ (fun en id => setDupFlag_fw en id false) pr.1 e0)
-  have hb : FW e eb := ha.trans ⟨rfl, rfl, rfl, rfl, rfl, fun h => h⟩
+  have hb : FW e eb := ha.trans (FW.of_eq rfl rfl rfl rfl rfl rfl rfl rfl)
   have hx : FW e x.1 := hb.trans (failAll_fw _ pr.2 eb)
-  exact hx.trans ⟨rfl, rfl, rfl, rfl, rfl, fun h => h⟩
+  exact hx.trans (FW.of_eq rfl rfl rfl rfl rfl rfl rfl rfl)
 
 theorem sessionRequeueStage_fw (e : Engine) : FW e e.sessionRequeueStage := by
   unfold Engine.sessionRequeueStage
   have h := foldl_fw (fun en id => (en.unbind id).clearQos2 id) (fun en id => (unbind_fw en id).trans (clearQos2_fw _ id)) e.userQ e
-  exact h.trans ⟨rfl, rfl, rfl, rfl, rfl, fun h => h⟩
+  exact h.trans (FW.of_eq rfl rfl rfl rfl rfl rfl rfl rfl)
 
 theorem applySessionPresent_fw (e : Engine) (present : Bool) : FW e (e.applySessionPresent present).1 := by
   rw [applySessionPresent_fst]
@@ -352,26 +402,30 @@ theorem handleConnack_fw (e : Engine) (c : Connack) : FW e (e.handleConnack c).1
     have hst : e.state = .pendingConnack := by
       cases hs : e.state <;> simp [hs] at hstn <;> rfl
     split
-    · exact ⟨rfl, rfl, rfl, rfl, rfl, fun h => h⟩
+    · exact (FW.of_eq rfl rfl rfl rfl rfl rfl rfl rfl)
     · split
       · exact FW.refl _
       · split
         · exact FW.refl _
         let e1 : Engine := { e with state := .connected, hasConnected := true, settings := some (e.buildSettings c), connackDeadline := none, outRes := e.outRes.reset (c.topicAliasMaximum.getD 0), inRes := e.inRes.reset, pingDeadline := none, nextPing := (if (e.buildSettings c).serverKeepAlive > 0 then some (e.now + (e.buildSettings c).serverKeepAlive * 1000) else none) }
         let e2 := e1.initSlowStart
-        have h1 : FW e e1 := ⟨rfl, rfl, rfl, rfl, rfl, fun _ => .inr hst⟩
+        have h1 : FW e e1 := ⟨rfl, rfl, rfl, rfl, rfl, .inr (.inr ⟨hst, rfl, fun s hs hk => by
+          have hs' : some (e.buildSettings c) = some s := hs
+          cases hs'
+          show (if (e.buildSettings c).serverKeepAlive > 0 then some (e.now + (e.buildSettings c).serverKeepAlive * 1000) else none).isSome = true
+          rw [if_pos hk]; rfl⟩), fun _ ha => by rw [hst] at ha; cases ha⟩
         have h2 : FW e e2 := by
           refine h1.trans ?_
           unfold e2 Engine.initSlowStart
           split
           · exact FW.refl _
-          · exact ⟨rfl, rfl, rfl, rfl, rfl, fun h => h⟩
+          · exact (FW.of_eq rfl rfl rfl rfl rfl rfl rfl rfl)
         have h3 := h2.trans (applySessionPresent_fw e2 c.sessionPresent)
         show FW e (if !(e2.applySessionPresent c.sessionPresent).2.isOk then ((e2.applySessionPresent c.sessionPresent).1, (e2.applySessionPresent c.sessionPresent).2)
           else ({ (e2.applySessionPresent c.sessionPresent).1 with outEvents := (e2.applySessionPresent c.sessionPresent).1.outEvents ++ [Packet.connack c] }, Res.ok)).1
         split
         · exact h3
-        · exact h3.trans ⟨rfl, rfl, rfl, rfl, rfl, fun h => h⟩
+        · exact h3.trans (FW.of_eq rfl rfl rfl rfl rfl rfl rfl rfl)
 
 theorem handlePacket_fw (e : Engine) (p : Packet) : FW e (e.handlePacket p).1 := by
   cases p with
@@ -408,7 +462,7 @@ theorem handleOnePacket_fw (e : Engine) (p : Packet) : FW e (e.handleOnePacket p
     | none => exact FW.refl _
     | some x =>
       obtain ⟨r', t⟩ := x
-      have h1 : FW e ({ e with inRes := r' } : Engine) := ⟨rfl, rfl, rfl, rfl, rfl, fun h => h⟩
+      have h1 : FW e ({ e with inRes := r' } : Engine) := (FW.of_eq rfl rfl rfl rfl rfl rfl rfl rfl)
       exact h1.trans (dispatchPacket_fw _ _)
   | _ => exact dispatchPacket_fw e _
 
@@ -435,7 +489,7 @@ theorem handleData_fw (e : Engine) (bs : Bytes) : FW e (e.handleData bs).1 := by
     · exact (FW.refl e).halt
     · simp only []
       have h1 : FW e ({ e with dec := (decodeBytes { version := e.cfg.version, maxSize := e.inboundMax } e.dec bs).dec } : Engine) :=
-        ⟨rfl, rfl, rfl, rfl, rfl, fun h => h⟩
+        (FW.of_eq rfl rfl rfl rfl rfl rfl rfl rfl)
       split
       · exact h1.halt
       · exact h1.trans (handlePackets_fw _ _)
@@ -954,7 +1008,7 @@ theorem serviceKeepAlive_fw (e : Engine) : FW e e.serviceKeepAlive.1 := by
           split
           · exact h2
           · split
-            · exact h2.trans ⟨rfl, rfl, rfl, rfl, rfl, fun h => h⟩
+            · exact h2.trans (FW.of_eq_ping rfl rfl rfl rfl rfl rfl rfl rfl)
             · exact h2
       · exact FW.refl _
     · exact FW.refl _
@@ -971,7 +1025,7 @@ theorem processAckTimeouts_fw : ∀ (fuel : Nat) (e : Engine), FW e (Engine.proc
     · rename_i id deadline _
       split
       · simp only []
-        have h1 : FW e ({ e with timeouts := e.timeouts.erase (id, deadline) } : Engine) := ⟨rfl, rfl, rfl, rfl, rfl, fun h => h⟩
+        have h1 : FW e ({ e with timeouts := e.timeouts.erase (id, deadline) } : Engine) := (FW.of_eq rfl rfl rfl rfl rfl rfl rfl rfl)
         have h2 := h1.trans (completeFailure_fw _ id "AckTimeout")
         exact h2.trans (ih _)
       · exact FW.refl _
@@ -1117,5 +1171,315 @@ theorem run_pw : ∀ (evs : List Event) (e : Engine), Inv2 e → PW e → (∀ e
 
 theorem pw_after (cfg : Config) (evs : List Event) (hc : ∀ ev ∈ evs, ev.capOk) : PW (runEvents (Engine.new cfg) evs).1 :=
   run_pw evs _ ⟨new_inv cfg, new_extra cfg⟩ (new_pw cfg) hc
+
+/-! ### the keep-alive clock never stops -/
+
+/-- while connected with a negotiated keep alive of K > 0 seconds a next ping is scheduled -/
+def KA (e : Engine) : Prop := e.state = .connected → ∀ s, e.settings = some s → s.serverKeepAlive > 0 → e.nextPing.isSome = true
+
+theorem KA.of_fw {a b : Engine} (h : KA a) (f : FW a b) : KA b := by
+  intro hc s hs hk
+  rcases f.st with x | x | x
+  · have ha : a.state = .connected := by rw [← x]; exact hc
+    obtain ⟨s1, n1⟩ := f.ka hc ha
+    exact n1 (h ha s (by rw [← s1]; exact hs) hk)
+  · rw [x] at hc; cases hc
+  · exact x.2.2 s hs hk
+
+/-- state, settings and next ping literally the same -/
+theorem KA.of_eq {a b : Engine} (h : KA a) (h1 : b.state = a.state) (h2 : b.settings = a.settings) (h3 : b.nextPing = a.nextPing) : KA b := by
+  intro hc s hs hk
+  rw [h3]; exact h (by rw [← h1]; exact hc) s (by rw [← h2]; exact hs) hk
+
+theorem KA.halt {e : Engine} : KA ({ e with state := .halted } : Engine) := fun hc => by cases hc
+
+theorem rejectCurrent_ka (e4 : Engine) (id : Nat) (resolution : Resolution) (x : VErr) (h : KA e4) : KA (e4.rejectCurrent id resolution x).engine := by
+  unfold Engine.rejectCurrent
+  simp only []
+  have h0 : KA ({ (if resolution.alias.isSome then ({ e4 with outRes := e4.outRes.reset ((e4.settings.map (·.topicAliasMaximum)).getD 0) } : Engine) else e4) with current := none } : Engine) := by
+    split
+    · exact h.of_eq rfl rfl rfl
+    · exact h.of_eq rfl rfl rfl
+  have hf := h0.of_fw (completeFailure_fw _ id x.name)
+  generalize ({ (if resolution.alias.isSome then ({ e4 with outRes := e4.outRes.reset ((e4.settings.map (·.topicAliasMaximum)).getD 0) } : Engine) else e4) with current := none } : Engine).completeFailure id x.name = y at hf ⊢
+  obtain ⟨e5, r5⟩ := y
+  simp only [] at hf ⊢
+  split
+  · exact hf
+  · split
+    · exact hf
+    · exact hf
+
+theorem prepareCurrent_ka (e3 : Engine) (id : Nat) (o : Op) (h : KA e3) : KA (e3.prepareCurrent id o).engine := by
+  unfold Engine.prepareCurrent
+  simp only []
+  generalize e3.resolveOutbound (o.pubrel.getD o.packet) = rr
+  obtain ⟨res', resolution⟩ := rr
+  simp only []
+  have h4 : KA ({ e3 with outRes := res' } : Engine) := h.of_eq rfl rfl rfl
+  cases hv : ({ e3 with outRes := res' } : Engine).lastChance (o.pubrel.getD o.packet) resolution with
+  | error x =>
+    cases x with
+    | panicNoSettings => exact h4
+    | packetValidation => exact rejectCurrent_ka _ id resolution _ h4
+    | encodingFailure => exact rejectCurrent_ka _ id resolution _ h4
+    | protocolError => exact rejectCurrent_ka _ id resolution _ h4
+  | ok u =>
+    simp only []
+    cases packetSteps e3.cfg.version resolution (o.pubrel.getD o.packet) with
+    | error x => exact h4
+    | ok steps => exact h4.of_eq rfl rfl rfl
+
+theorem acquireIdFor_ka (e : Engine) (id : Nat) (h : KA e) : KA (e.acquireIdFor id).1 := by
+  obtain ⟨f1, _, f3, _, _, _, _⟩ := acquireIdFor_frame e id
+  have hn : (e.acquireIdFor id).1.nextPing = e.nextPing := by
+    unfold Engine.acquireIdFor
+    cases e.op? id with
+    | none => rfl
+    | some o =>
+      simp only []
+      split
+      · rfl
+      · split
+        · rfl
+        · unfold Engine.acquireFreeId
+          generalize acquireLoop e.allocated e.nextPacketId 65536 e.nextPacketId e.nextPacketId = r
+          obtain ⟨found, next⟩ := r
+          cases found <;> rfl
+  exact h.of_eq f1 f3 hn
+
+theorem seatCurrent_ka (e : Engine) (all : Bool) (h : KA e) : KA (e.seatCurrent all).engine := by
+  unfold Engine.seatCurrent
+  cases hc : e.current with
+  | some c => exact h
+  | none =>
+    simp only []
+    have hd : KA (e.dequeue all).1 := by
+      rcases dequeue_cases e all with ⟨_, he⟩ | ⟨_, _, _, he⟩ | ⟨_, _, _, _, _, _, he⟩ | ⟨_, _, _, _, _, _, _, he⟩ <;> rw [he] <;> exact h.of_eq rfl rfl rfl
+    generalize e.dequeue all = dq at hd
+    obtain ⟨e1, next⟩ := dq
+    cases next with
+    | none => exact hd
+    | some id =>
+      simp only []
+      split
+      · exact hd.of_eq rfl rfl rfl
+      · have ha := acquireIdFor_ka ({ e1 with current := some id } : Engine) id (hd.of_eq rfl rfl rfl)
+        generalize ({ e1 with current := some id } : Engine).acquireIdFor id = ar at ha
+        obtain ⟨e3, r⟩ := ar
+        simp only [] at ha ⊢
+        split
+        · exact ha
+        · cases e3.op? id with
+          | none => exact ha
+          | some o => exact prepareCurrent_ka e3 id o ha
+
+theorem onFullyWritten_ka (e e3 : Engine) (hw : e.onFullyWritten = some e3) (h : KA e) : KA e3 := by
+  unfold Engine.onFullyWritten at hw
+  cases hc : e.current with
+  | none => rw [hc] at hw; cases hw
+  | some id =>
+    rw [hc] at hw
+    simp only [] at hw
+    cases ho : e.op? id with
+    | none => rw [ho] at hw; cases hw
+    | some o =>
+      rw [ho] at hw
+      simp only [Option.some.injEq] at hw
+      subst hw
+      -- filing may only leave the Connected state (a DISCONNECT being written)
+      have hfile : (e.fileWritten id o).settings = e.settings ∧ (e.fileWritten id o).nextPing = e.nextPing ∧
+          ((e.fileWritten id o).state = .connected → e.state = .connected) := by
+        unfold Engine.fileWritten
+        split
+        · exact ⟨rfl, rfl, fun h => h⟩
+        · exact ⟨rfl, rfl, fun h => h⟩
+        · split <;> exact ⟨rfl, rfl, fun h => h⟩
+        · exact ⟨rfl, rfl, fun h => by cases h⟩
+        · exact ⟨rfl, rfl, fun h => h⟩
+      have h1 : KA (e.fileWritten id o) := by
+        intro hcn s hs hk
+        rw [hfile.2.1]; exact h (hfile.2.2 hcn) s (by rw [← hfile.1]; exact hs) hk
+      generalize e.fileWritten id o = e1 at h1 ⊢
+      have h2 : KA ((e1.setOp { o with pingBase := some e.now }).startAckTimeout id) := by
+        unfold Engine.startAckTimeout
+        split
+        · exact h1.of_eq rfl rfl rfl
+        · exact h1.of_eq rfl rfl rfl
+      generalize (e1.setOp { o with pingBase := some e.now }).startAckTimeout id = e2 at h2 ⊢
+      have h3 : KA (e2.armPingDeadline o) := by
+        unfold Engine.armPingDeadline
+        split
+        · rename_i s _ hs
+          intro hcn s' hs' hk
+          have : some s = some s' := by rw [← hs]; exact hs'
+          cases this
+          show (if s.serverKeepAlive > 0 then some (e2.now + s.serverKeepAlive * 1000) else e2.nextPing).isSome = true
+          rw [if_pos hk]; rfl
+        · exact h2
+      exact h3.of_eq rfl rfl rfl
+
+theorem serviceQueueAux_ka (all : Bool) (cap : Nat) : ∀ (fuel : Nat) (e : Engine), KA e → KA (Engine.serviceQueueAux all cap fuel e).1 := by
+  intro fuel
+  induction fuel with
+  | zero => intro e h; exact h
+  | succ f ih =>
+    intro e h
+    unfold Engine.serviceQueueAux
+    split
+    · exact h
+    · have sk := seatCurrent_ka e all h
+      cases hseat : e.seatCurrent all with
+      | ret e1 r => rw [hseat] at sk; exact sk
+      | cont e1 => rw [hseat] at sk; exact ih e1 sk
+      | encode e1 =>
+        rw [hseat] at sk
+        simp only []
+        have sk1 : KA e1 := sk
+        cases hc : e1.current with
+        | none => exact sk1
+        | some id =>
+          simp only []
+          split
+          · exact sk1
+          · split
+            · exact sk1
+            · have h2 : KA (e1.encodeCurrent cap).1 := sk1.of_eq rfl rfl rfl
+              generalize e1.encodeCurrent cap = y at h2 ⊢
+              obtain ⟨e2, failed⟩ := y
+              simp only [] at h2 ⊢
+              split
+              · exact h2
+              · split
+                · cases hw : e2.onFullyWritten with
+                  | none => exact h2
+                  | some e3 => exact ih e3 (onFullyWritten_ka e2 e3 hw h2)
+                · exact h2
+
+theorem serviceQueue_ka (e : Engine) (all : Bool) (cap prefill : Nat) (h : KA e) : KA (e.serviceQueue all cap prefill).1 := by
+  unfold Engine.serviceQueue
+  simp only []
+  have r := serviceQueueAux_ka all cap (2 * (e.highQ.length + e.resubQ.length + e.userQ.length) + 4)
+    { e with outBytes := List.replicate (min prefill cap) 0 } (h.of_eq rfl rfl rfl)
+  generalize Engine.serviceQueueAux all cap (2 * (e.highQ.length + e.resubQ.length + e.userQ.length) + 4)
+    { e with outBytes := List.replicate (min prefill cap) 0 } = x at r ⊢
+  obtain ⟨e1, rr⟩ := x
+  exact r.of_eq rfl rfl rfl
+
+theorem service_ka (e : Engine) (cap prefill : Nat) (h : KA e) : KA (e.service cap prefill).1 := by
+  have hc : KA (e.serviceCore cap prefill).1 := by
+    unfold Engine.serviceCore
+    cases hst : e.state with
+    | disconnected => exact h
+    | halted => exact h
+    | pendingDisconnect => simp only []; exact h.of_fw (processAckTimeouts_fw _ e)
+    | pendingConnack =>
+      simp only []
+      cases e.connackDeadline with
+      | none => exact h
+      | some d =>
+        simp only []
+        split
+        · exact h
+        · exact serviceQueue_ka e false cap prefill h
+    | connected =>
+      simp only []
+      have ha := h.of_fw (serviceKeepAlive_fw e)
+      generalize e.serviceKeepAlive = ka at ha ⊢
+      obtain ⟨ea, ra⟩ := ka
+      simp only [] at ha ⊢
+      split
+      · exact ha
+      · have hb := serviceQueue_ka ea true cap prefill ha
+        generalize ea.serviceQueue true cap prefill = qb at hb ⊢
+        obtain ⟨eb, rb⟩ := qb
+        simp only [] at hb ⊢
+        split
+        · exact hb
+        · exact hb.of_fw (processAckTimeouts_fw _ eb)
+  unfold Engine.service
+  generalize e.serviceCore cap prefill = x at hc ⊢
+  obtain ⟨e1, r⟩ := x
+  simp only [] at hc ⊢
+  split
+  · exact hc
+  · exact hc
+  · exact KA.halt
+
+theorem haltOnErr_ka (x : Engine × Res) (h : KA x.1) : KA (haltOnErr x).1 := by
+  unfold haltOnErr
+  split
+  · exact KA.halt
+  · exact h
+
+/-- **One step keeps the keep-alive clock running** -/
+theorem step_ka (e : Engine) (ev : Event) (h : KA e) : KA (step e ev).1 := by
+  have hb : ∀ t, KA (e.begin t) := fun t => h.of_eq rfl rfl rfl
+  have hf : ∀ (en : Engine) (r : Res), KA en → KA (en.finish r).1 := fun en r hh => hh.of_eq rfl rfl rfl
+  cases ev with
+  | user t u => exact hf _ _ ((hb t).of_fw (handleUser_fw (e.begin t) u))
+  | opened t d =>
+    refine hf _ _ (haltOnErr_ka _ ?_)
+    intro hc
+    have : ((e.begin t).handleOpened d).1.state = .halted ∨ ((e.begin t).handleOpened d).1.state = .pendingConnack := by
+      unfold Engine.handleOpened
+      split
+      · exact .inl rfl
+      · simp only [Engine.createOp]
+        unfold Engine.enqueue
+        simp only [Engine.op?, lookup_mapInsert_self, Option.isNone_some, Bool.false_eq_true, ↓reduceIte]
+        first | trivial | (right; rfl)
+    rcases this with a | a <;> (rw [a] at hc; cases hc)
+  | closed t =>
+    refine hf _ _ (haltOnErr_ka _ ?_)
+    by_cases hd : (e.begin t).state = .disconnected
+    · have : (e.begin t).handleClosed = (e.begin t, .err "InternalStateError") := by
+        unfold Engine.handleClosed; simp [hd]
+      rw [this]; exact hb t
+    · intro hc
+      rw [GV.handleClosed_state (e.begin t) hd] at hc; cases hc
+  | data t bs => exact hf _ _ (haltOnErr_ka _ ((hb t).of_fw (handleData_fw (e.begin t) bs)))
+  | writeDone t =>
+    refine hf _ _ (haltOnErr_ka _ ?_)
+    unfold Engine.handleWriteCompletion
+    split
+    · exact hb t
+    · split
+      · exact KA.halt
+      · simp only []
+        have h0 : KA ({ (e.begin t) with pendingWrite := false, pendingWC := [] } : Engine) := (hb t).of_eq rfl rfl rfl
+        exact h0.of_fw (succeedAll_fw (e.begin t).pendingWC _)
+  | service t cap pre => exact hf _ _ (service_ka (e.begin t) cap pre (hb t))
+  | queryNext t => exact hb t
+  | reset t =>
+    refine hf _ _ ?_
+    intro hc
+    have : (e.begin t).reset.state = .halted ∨ (e.begin t).reset.state = .disconnected := by
+      unfold Engine.reset
+      simp only []
+      have hst0 : (if (e.begin t).state != .disconnected then ({ (e.begin t) with state := .halted } : Engine) else (e.begin t)).state = .halted ∨
+          (if (e.begin t).state != .disconnected then ({ (e.begin t) with state := .halted } : Engine) else (e.begin t)).state = .disconnected := by
+        split
+        · exact .inl rfl
+        · rename_i hh; right; simpa using hh
+      generalize (if (e.begin t).state != .disconnected then ({ (e.begin t) with state := .halted } : Engine) else (e.begin t)) = e0 at hst0 ⊢
+      have hst1 : (e0.failAll (e0.ops.map (·.1)) "ClientClosed").1.state = e0.state :=
+        failAll_state _ _ e0 (by rcases hst0 with a | a <;> (rw [a]; decide))
+      generalize e0.failAll (e0.ops.map (·.1)) "ClientClosed" = y at hst1 ⊢
+      obtain ⟨e1, r⟩ := y
+      simp only [] at hst1 ⊢
+      show e1.state = .halted ∨ e1.state = .disconnected
+      rw [hst1]; exact hst0
+    rcases this with a | a <;> (rw [a] at hc; cases hc)
+
+theorem run_ka : ∀ (evs : List Event) (e : Engine), KA e → KA (runEvents e evs).1 := by
+  intro evs
+  induction evs with
+  | nil => intro e h; exact h
+  | cons ev rest ih => intro e h; simp only [runEvents]; exact ih _ (step_ka e ev h)
+
+/-- **Every history**: while connected with a negotiated keep alive K > 0 the next PINGREQ is scheduled. -/
+theorem ka_after (cfg : Config) (evs : List Event) : KA (runEvents (Engine.new cfg) evs).1 :=
+  run_ka evs _ (fun hc => by cases hc)
 
 end GV
